@@ -1029,6 +1029,11 @@ static int _yr_scan_verify_literal_match(
   return ERROR_SUCCESS;
 }
 
+#ifdef YARA_VERIF
+// Verification hook: reports every candidate handed over by the automaton.
+void (*yr_verif_on_candidate)(uint32_t string_idx, uint64_t offset) = NULL;
+#endif
+
 int yr_scan_verify_match(
     YR_SCAN_CONTEXT* context,
     YR_AC_MATCH* ac_match,
@@ -1051,6 +1056,11 @@ int yr_scan_verify_match(
   YR_CALLBACK_FUNC callback = context->callback;
 
   int result;
+
+#ifdef YARA_VERIF
+  if (yr_verif_on_candidate != NULL)
+    yr_verif_on_candidate(string->idx, data_base + offset);
+#endif
 
   if (data_size - offset <= 0)
     return ERROR_SUCCESS;
